@@ -54,6 +54,17 @@ def lake(args, timeout=3000):
     return p.returncode, (p.stdout + p.stderr)
 
 
+# which translated tables each property's theorems, model or driver operations read; a table that cannot be extracted breaks
+# only these (the parser / filter / environment tables parametrise the driver's query evaluation: every query property)
+ALL_TABLES = ("parser", "filter", "env", "pointer", "exceptions", "lexer", "cli", "twins", "guards")
+_Q = ("parser", "filter", "env")
+TABLE_DEPS = {
+    "C01": _Q + ("lexer",), "C02": _Q + ("lexer",), "C03": _Q + ("lexer", "pointer"), "C04": ("pointer",), "C05": ("pointer",), "C06": _Q + ("pointer", "guards", "lexer"),
+    "C07": _Q, "C08": _Q + ("twins",), "C09": _Q, "C10": _Q + ("lexer",), "C11": _Q, "C12": _Q, "C13": _Q + ("lexer",), "C14": ("pointer",), "C15": ("pointer",),
+    "C16": ("pointer",), "C17": _Q + ("lexer",), "C18": ("cli", "exceptions"), "C19": _Q, "C20": _Q + ("pointer",),
+}
+
+
 def build_and_audit(pid: str, tier: str, modules=None, side_conditions=()):
     """Regenerate tables, build `JP.Props.<pid>` (+ extra modules) and the driver, audit axioms."""
     t0 = time.time()
@@ -63,7 +74,10 @@ def build_and_audit(pid: str, tier: str, modules=None, side_conditions=()):
     try:
         from . import tables
         tables.regenerate()
-    except Exception as e:  # noqa: BLE001  (fail closed: an unrecognised table is a broken obligation)
+        failed = {k: v for k, v in tables.FAILED.items() if k in TABLE_DEPS.get(pid, ALL_TABLES)}
+        if failed:
+            raise tables.TableError("; ".join(f"{k}: {v}" for k, v in sorted(failed.items())))
+    except Exception as e:  # noqa: BLE001  (fail closed: an unrecognised table is a broken obligation of the properties that use it)
         st["build_error"] = f"table extraction failed: {type(e).__name__}: {e}"
         st["checker_cmd"] = "harness/tables.py"
         return st
